@@ -1,4 +1,5 @@
 import QuriVerif.Driver.C01
+import QuriVerif.Driver.C12
 namespace QV.Driver
 
 def dispatch (line : String) : String :=
@@ -12,6 +13,7 @@ def dispatch (line : String) : String :=
     | "c01rotpipeline" => c01rotpipeline args
     | "c01approx" => c01approx args
     | "gatemat" => gatemat args
+    | "c12fold" => c12fold args
     | _ => "bad-request"
   | [] => "bad-request"
 
